@@ -878,7 +878,15 @@ func c05BenignRace(site string) string {
 	if len(fs) != 2 {
 		return ""
 	}
-	all := func(pred func(string) bool) bool { return pred(fs[0]) && pred(fs[1]) }
+	// the race detector sometimes cannot restore the stack of the older access ("[failed to restore the stack]"): that side of
+	// the report then carries no function name; such a side is matched by whatever the other side is matched by
+	unknown := func(f string) bool { return f == "" || strings.ContainsAny(f, " :[") }
+	all := func(pred func(string) bool) bool {
+		if unknown(fs[0]) && unknown(fs[1]) {
+			return false
+		}
+		return (unknown(fs[0]) || pred(fs[0])) && (unknown(fs[1]) || pred(fs[1]))
+	}
 	switch {
 	case all(func(f string) bool { return f == "obiiter.RegisterAPipe" || f == "obiiter.UnregisterPipe" }):
 		// globalLockerCounter++ / --: a counter that is only printed by log.Debugln
